@@ -12,16 +12,17 @@ NormDesc(d) ==
     [] d.k = "fb" -> [d EXCEPT !.h = SetOf(d.h)]
     [] d.k = "cb" -> [d EXCEPT !.h = SetOf(d.h)]
     [] d.k = "hg" -> [d EXCEPT !.c = SetOf(d.c)]      \* d.delays stays a sequence
+    [] d.k = "cache" -> [d EXCEPT !.ifc = SetOf(d.ifc)]
     [] OTHER -> d
 NormCfg(c) == [c EXCEPT !.stack = [j \in 1..Len(c.stack) |-> NormDesc(c.stack[j])]]
 
 Dummy == [objs |-> <<>>, last |-> <<>>, cres |-> NilPR, att |-> 0, ret |-> 0, hdg |-> 0, exe |-> 0, calls |-> 0, t0 |-> 0,
-          rs |-> <<>>, final |-> NilPR, returned |-> FALSE, async |-> FALSE, cancel1 |-> FALSE, stored |-> FALSE, doneflag |-> FALSE, closed |-> FALSE, callobj |-> <<>>, spurious |-> 0]
+          rs |-> <<>>, final |-> NilPR, returned |-> FALSE, async |-> FALSE, cancel1 |-> FALSE, stored |-> FALSE, doneflag |-> FALSE, closed |-> FALSE, callobj |-> <<>>, spurious |-> 0, ck |-> "none"]
 
 InitPolOf(c) ==
-  LET ids == {c.stack[j].id : j \in {jj \in 1..Len(c.stack) : c.stack[jj].k \in {"cb", "bh", "rl"}}} IN
-  [id \in ids |-> LET d == c.stack[CHOOSE j \in 1..Len(c.stack) : c.stack[j].k \in {"cb", "bh", "rl"} /\ c.stack[j].id = id] IN
-                  IF d.k = "cb" THEN BO(d.cfg)!NewClosed ELSE IF d.k = "rl" THEN [nextFree |-> 0] ELSE 0]
+  LET ids == {c.stack[j].id : j \in {jj \in 1..Len(c.stack) : c.stack[jj].k \in {"cb", "bh", "rl", "cache"}}} IN
+  [id \in ids |-> LET d == c.stack[CHOOSE j \in 1..Len(c.stack) : c.stack[j].k \in {"cb", "bh", "rl", "cache"} /\ c.stack[j].id = id] IN
+                  IF d.k = "cb" THEN BO(d.cfg)!NewClosed ELSE IF d.k = "rl" THEN [nextFree |-> 0] ELSE IF d.k = "cache" THEN {} ELSE 0]
 
 ----------------------------------------------------------------------------
 (* ---- property predicates over the visible events of one finished scenario (from the property texts) ---- *)
